@@ -85,7 +85,10 @@ class File:
         self.fspans = d.get("fspans") or []
         self.body = self.data[self.header_len:]
         self.size = len(self.data)
-        self.big = max((s[1] - s[0] for s in self.spans), default=0) + 2   # largest entry in bytes (+ terminator slack)
+        # largest entry in bytes (+ terminator slack); interior comment lines in front of a record count as part of it: a
+        # chunk that holds nothing but comment lines holds no entry ("a chunk size too small to hold one entry may raise")
+        prev_ends = [self.header_len] + [s[1] for s in self.spans[:-1]]
+        self.big = max((s[1] - pe for s, pe in zip(self.spans, prev_ends)), default=0) + 2
 
     def brief(self):
         d = self.d
